@@ -275,10 +275,10 @@ CLAIMED["C09"] = dict(
     text="Lean 4 lemmas the accept-all simulation rests on, for lists of any length: inserting at _get_real_insert_position places "
     "the node at `position` among the children not marked deleted (C09_insert_position_live); a step of _xpath sees exactly the "
     "ghost-free view and with an explicit index selects what the counting evaluator selects there; _join_delete_insert keeps the "
-    "accepted text; the accept simulation at tree level for scripts without moves (C09_accept_simulation_no_moves: no text tags, no "
+    "accepted text; the accept simulation at tree level for all actions (C09_accept_simulation: no text tags, no "
     "use_replace, tree before finalize - if the patcher accepts the script, every formatter handler succeeds and the accepted view "
-    "of the working tree, ghosts dropped, diff: attributes removed, marked texts read back, is the patched tree); one text update end to end at text level (C09_text_update_accept: _make_diff_tags on the modelled diff_main + "
-    "diff_cleanupSemantic of two texts without private-use characters, then undo_string: accepting every wrapper spells the new text). PARTIAL: moves, text tags, use_replace and the accepted view after finalize at tree level are not proved; the property is decided on every run "
+    "of the working tree, ghosts dropped, diff: attributes removed, marked texts read back, is the patched tree up to a one-to-one renaming of node ids - the patcher is proved independent of ids); one text update end to end at text level (C09_text_update_accept: _make_diff_tags on the modelled diff_main + "
+    "diff_cleanupSemantic of two texts without private-use characters, then undo_string: accepting every wrapper spells the new text). PARTIAL: text tags, use_replace and the accepted view after finalize at tree level are not proved; the property is decided on every run "
     "by the accept-all projection of the real output against R. Known findings X1 (text after a comment lost) and X2 (tail of a "
     "deleted / moved node unmarked) are violations of the pinned code that cannot be repaired without editing golden-file tests.",
     note=_XMLNOTE,
